@@ -11,6 +11,7 @@ import (
 	"verif/scen/linksys"
 	"verif/scen/shared"
 	"verif/scen/walkctl"
+	"verif/scen/xform"
 )
 
 func main() {
@@ -24,5 +25,6 @@ func main() {
 	driver.Register(linksys.S06{})
 	driver.Register(linksys.S05{})
 	driver.Register(walkctl.S{})
+	driver.Register(xform.S{})
 	os.Exit(driver.Main(os.Args[1:]))
 }
